@@ -21,7 +21,7 @@ def _child(task, build):
             fr.obligations = [o for o in fr.obligations if o.expect != 'unsat' or any(o.meta['kind'].startswith(k) for k in kinds)]
         om = cex.make_on_model(fr.params, fr.pre_heap)
         res = smt.discharge(fr.obligations, timeout=opts['timeout'], seed=opts['seed'], on_model=om, retry_timeout=opts['retry'],
-                            procs=opts['procs'], use_cvc5=opts.get('cvc5', True), want_hash=opts.get('want_hash', False))
+                            procs=opts['procs'], use_cvc5=opts.get('cvc5', True), want_hash=opts.get('want_hash', False), hints=opts.get('hints'))
         mod = q.rsplit('.', 1)[0]
         while mod not in prog.sha and '.' in mod:
             mod = mod.rsplit('.', 1)[0]
